@@ -6,6 +6,7 @@ from ..report import AnalysisError
 from ..srcmodel import unparse, norm, calls_in
 from .common import is_method_call
 from . import containers as ct
+from . import unitrules
 
 from .common import Guard  # noqa: E402
 
@@ -40,11 +41,13 @@ def check(repo, run, tier):
         run.floor('C17.R1', 24, '(12 operations x 2 classes)')
     g(ct.unnamed_info, repo, run, 'C17.R2')
     g(r3, repo, run)
+    g(unitrules.storage_receives_node, repo, run, 'C17.R1')
     g.done()
 
 
 def mutants(repo):
     return [
+        Mutant('insert-stores-the-raw-value', lambda r: in_func(r, 'ConfigList.insert', "        value = ComposedNode.ayns.set_child(self, index, value)\n        list.insert(self, index, value)", "        node = ComposedNode.ayns.set_child(self, index, value)\n        list.insert(self, index, value)"), ['C17.R1']),
         Mutant('F7-reverted-underscore-bypass', lambda r: in_func(r, 'ConfigDict.__setitem__', "        return self._set(name, value)", "        if isinstance(name, str) and name.startswith('_'):\n            return dict.__setitem__(self, name, value)\n        return self._set(name, value)"), ['C17.R1']),
         Mutant('F8-reverted-insert-no-renumber', lambda r: in_func(r, 'ConfigList.insert', "        self._children = { idx: child for idx, child in enumerate(self) }\n", ""), ['C17.R1']),
         Mutant('F12-reverted-pop-removed', lambda r: in_func(r, 'ConfigList.pop', "    def pop(self, index=-1):\n        return self._del(index)\n", "    def _pop_unused(self, index=-1):\n        return self._del(index)\n"), ['C17.R2']),
